@@ -415,11 +415,23 @@ def call_stage(chk, xcmp):
         exprs += [("tick() and c", k), ("c and tick()", k), ("tick() or c", k), ("c or tick()", k), ("1 + (tick() and c)", k), ("~(tick() or c)", k), ("(tick() and c) or tick()", k)]
     for k in (0, 5, -3, 100, 70000):
         exprs += [("c - id(v)", k), ("id(v) - c", k), ("c + id(v)", k), ("c < id(v)", k), ("id(v) < c", k), ("c >= id(v)", k), ("id(v) <= c", k), ("c > id(v) + tick()", k), ("(c + 1) - id(v)", k)]
+    # conditions of `while` and `if` that are known at compile time (a constant-false loop must be skipped, a constant-true
+    # loop must still run its body): the statement is put where the expression assignment was
+    stmts = []
+    for k in (0, 1):
+        stmts += [("while c do { count := count + 1; if count = 3 then 0(count + 40) else skip }", k),
+                  ("if c then count := 5 else count := 6", k), ("if ~c then count := 5 else count := 6", k),
+                  ("while c and (count < 2) do count := count + 1", k), ("while (count < 2) and c do count := count + 1", k)]
+    for k in (1, 2, 5):
+        stmts += [("while c - 1 do { count := count + 1; if count = 3 then 0(count + 40) else skip }", k),
+                  ("while c < 2 do { count := count + 1; if count = 2 then 0(50) else skip }", k),
+                  ("if (c + 1) - 2 then count := 5 else count := 6", k)]
+    items = [(e, k, "r := %s") for e, k in exprs] + [(s, k, "%s; r := 0") for s, k in stmts]
     bad, n, first = 0, 0, None
-    for i, (e, k) in enumerate(exprs):
+    for i, (e, k, shape) in enumerate(items):
         outs = []
         for mode in ("val", "var"):
-            src = CALL_TEMPLATE % {"decl": "val c = %s;" % lit(k) if mode == "val" else "var c;", "init": "count := 0" if mode == "val" else "c := %s" % lit(k), "expr": e}
+            src = (CALL_TEMPLATE.replace("r := %(expr)s", shape % "%(expr)s")) % {"decl": "val c = %s;" % lit(k) if mode == "val" else "var c;", "init": "count := 0" if mode == "val" else "c := %s" % lit(k), "expr": e}
             d = os.path.join(chk.out, "calls", "%d.%s" % (i, mode))
             os.makedirs(d, exist_ok=True)
             open(os.path.join(d, "p.x"), "w").write(src)
@@ -427,7 +439,7 @@ def call_stage(chk, xcmp):
             if rc != 0 or not os.path.exists(os.path.join(d, "a.out")):
                 outs.append(("xcmp failed", rc, (o + er)[-200:]))
                 continue
-            rc, o, er, _ = hv.run([hexsim, "a.out", "--max-cycles", "200000"], cwd=d, timeout=60)
+            rc, o, er, _ = hv.run([hexsim, "a.out", "--max-cycles", "200000"], cwd=d, timeout=60)   # a loop that never ends is cut short here (status 0, no exit call)
             outs.append((o, rc))
         if any(x[0] == "xcmp failed" for x in outs):
             if outs[0][0] != outs[1][0]:
@@ -439,7 +451,7 @@ def call_stage(chk, xcmp):
             bad += 1
             if first is None:
                 first = {"expression": e, "constant": k, "as_val": list(outs[0]), "as_var": list(outs[1])}
-    rec = {"stage": "real xcmp + real hexsim on expressions whose operands are function calls (constant as `val` vs assigned variable): output and exit status compared", "programs": n, "differences": bad, "first": first}
+    rec = {"stage": "real xcmp + real hexsim on expressions whose operands are function calls, and on while/if statements whose condition is known at compile time (constant as `val` vs assigned variable): output and exit status compared", "programs": n, "differences": bad, "first": first}
     chk.native.append(rec)
     if bad:
         p = chk.replay_path("native-calls")
